@@ -21,7 +21,7 @@
 (* observation sequences; the real loop must produce one of them.          *)
 (*                                                                         *)
 (* Item ids: the program's own calls create items 1..NTop in call order;   *)
-(* the item created by the script of item i has id i + 10.                 *)
+(* the item created by the script of item i has id i + 100.                 *)
 (***************************************************************************)
 EXTENDS Integers, Sequences, FiniteSets, SequencesExt, TLC
 
@@ -37,7 +37,7 @@ CONSTANTS NTop,       \* number of items the program itself may create
           MaxAdvance, MaxNow, MaxIter,
           MaxLat      \* a returned future's exception is logged at most MaxLat iterations later
 
-Child(i) == i + 10
+Child(i) == i + 100
 Ids == (1..NTop) \cup {Child(i) : i \in 1..NTop}
 
 NoItem == [how |-> "none", k |-> "none", a |-> 0, dl |-> 0, st |-> "none", rit |-> 0, seq |-> 0]
